@@ -22,7 +22,7 @@ RULES = {
     "R4": "_ti_calc_trim is exact (proved per path by linear arithmetic, tiv/linarith.py): under size == pad1 + image + pad2, all >= 0, image >= 1 and a non-empty "
           "window (trim1 + trim2 <= size - 1) its results are (|window & pad1|, clamp(trim1 - pad1, 0, image), clamp(trim2 - pad2, 0, image), |window & pad2|) on every feasible path",
     "R3": "the canvas describes the render it holds: content() uses the image size recorded when the canvas was rendered (self._ti_image_size), never "
-          "the image's current size; its padding split (near = n//2, far = n-near; remainder to the far side) is the one _format_render used",
+          "the image's current size; its padding split (near = n//2, far = n-near; remainder to the far side) is the one _format_render used; content() and the _ti_* helpers are a read-only view: they change no object they did not build in the call",
 }
 UW, CM = "widget/_urwid.py", "image/common.py"
 
